@@ -273,3 +273,87 @@ impl Reader<Vec<u8>> for SegmentedReader {
         self.pos += k;
     }
 }
+
+/// A borrowing reader over two separate segments (a ring buffer that wrapped): fixed-width reads,
+/// skips and sub-readers work across the seam, but `bytes()` cannot hand out one contiguous slice
+/// that straddles it and returns `None` there although enough octets remain. That is within the
+/// letter of the trait ("attempt to read"), so the *results* through this reader are not compared
+/// with anything; it exists to drive the codec down its "bytes() refused" paths while the
+/// process-level monitors watch.
+pub struct SeamReader<'a> {
+    a: &'a [u8],
+    b: &'a [u8],
+    pos: usize,
+    end: usize,
+}
+
+impl<'a> SeamReader<'a> {
+    pub fn new(a: &'a [u8], b: &'a [u8]) -> Self {
+        SeamReader { a, b, pos: 0, end: a.len() + b.len() }
+    }
+    fn at(&self, i: usize) -> u8 {
+        if i < self.a.len() {
+            self.a[i]
+        } else {
+            self.b[i - self.a.len()]
+        }
+    }
+    fn take<const N: usize>(&mut self) -> [u8; N] {
+        let mut out = [0u8; N];
+        for (k, o) in out.iter_mut().enumerate() {
+            if self.pos + k < self.end {
+                *o = self.at(self.pos + k);
+            }
+        }
+        self.pos = (self.pos + N).min(self.end);
+        out
+    }
+}
+
+impl<'a> Reader<&'a [u8]> for SeamReader<'a> {
+    fn is_empty(&self) -> bool {
+        self.pos == self.end
+    }
+    fn len(&self) -> usize {
+        self.end - self.pos
+    }
+    fn subreader(&mut self, length: usize) -> Self {
+        let k = length.min(self.end - self.pos);
+        let s = SeamReader { a: self.a, b: self.b, pos: self.pos, end: self.pos + k };
+        self.pos += k;
+        s
+    }
+    fn bytes(&mut self, length: usize) -> Option<&'a [u8]> {
+        if length > self.end - self.pos {
+            return None;
+        }
+        let (s, e) = (self.pos, self.pos + length);
+        let la = self.a.len();
+        let out = if e <= la {
+            &self.a[s..e]
+        } else if s >= la {
+            &self.b[s - la..e - la]
+        } else if length == 0 {
+            &self.a[s..s]
+        } else {
+            return None; // straddles the seam
+        };
+        self.pos = e;
+        Some(out)
+    }
+    unsafe fn read_u8_unchecked(&mut self) -> u8 {
+        self.take::<1>()[0]
+    }
+    unsafe fn read_u16_be_unchecked(&mut self) -> u16 {
+        u16::from_be_bytes(self.take::<2>())
+    }
+    unsafe fn read_u32_be_unchecked(&mut self) -> u32 {
+        u32::from_be_bytes(self.take::<4>())
+    }
+    unsafe fn read_u64_be_unchecked(&mut self) -> u64 {
+        u64::from_be_bytes(self.take::<8>())
+    }
+    fn skip_bytes(&mut self, length: usize) {
+        self.pos = (self.pos + length).min(self.end);
+    }
+}
